@@ -195,11 +195,11 @@ MAINT = ["pack_loose_objects", "repack", "gc0", "gcNone", "gc-default", "gc-nopr
          "porcelain.pack_refs", "store.prune", "write_midx", "write_commit_graph", "gc0-aggressive"]
 
 
-def do_maint(d, step):
+def do_maint(d, step, handle=None):
     from dulwich import porcelain
     from dulwich.gc import garbage_collect
     from dulwich.repo import Repo
-    r = Repo(d)
+    r = handle if handle is not None else Repo(d)
     try:
         if step == "pack_loose_objects":
             r.object_store.pack_loose_objects()
@@ -262,15 +262,49 @@ def run_seq(case):
                 if os.path.exists(p):
                     mt_old[oid] = (now - os.path.getmtime(p)) > 1209600
             before = git_objects(d)
+            handle = None
+            refs_expected = None
+            if step in ("gc0", "gcNone", "porcelain.pack_refs", "gc0-aggressive", "porcelain.prune") and rng.random() < 0.3:
+                # a long-lived handle that has already looked at the refs, then another process moves a ref and re-packs the refs (the new
+                # packed-refs has the same length and, usually, the same second of mtime), then the old handle runs the maintenance
+                from dulwich.repo import Repo as _Repo
+                handle = _Repo(d)
+                handle.refs.as_dict()
+                list(handle.object_store.packs)
+                core.git(["pack-refs", "--all"], cwd=d)
+                handle.refs.as_dict()
+                brs = core.git(["for-each-ref", "--format=%(refname)", "refs/heads"], cwd=d).stdout.split()
+                commits_ = core.git(["rev-list", "--all"], cwd=d).stdout.split()
+                if brs and len(commits_) > 1:
+                    b_ = rng.choice(brs).decode()
+                    # a commit only this branch will keep alive afterwards
+                    with open(os.path.join(d, "moved.txt"), "a") as f_:
+                        f_.write("moved %d\n" % rng.randrange(10 ** 6))
+                    core.git(["add", "-A"], cwd=d, check=False)
+                    tree_ = core.git(["write-tree"], cwd=d).stdout.strip().decode()
+                    newc = core.git(["commit-tree", "-m", "moved", "-p", rng.choice(commits_).decode(), tree_], cwd=d).stdout.strip().decode()
+                    core.git(["update-ref", b_, newc], cwd=d)
+                    core.git(["pack-refs", "--all"], cwd=d)
+                    core.git(["reset", "-q"], cwd=d, check=False)
+                    feats.add("live-handle-after-external-ref-move")
+                closure = git_closure(d)
+                before = git_objects(d)
+                unreachable = set(before) - set(closure)
+                refs_expected = core.git(["for-each-ref", "--format=%(refname) %(objectname)"], cwd=d).stdout
             try:
-                do_maint(d, step)
+                do_maint(d, step, handle)
             except Exception as e:
                 viol.append({"sig": "C10/seq/%s/raises-%s" % (step, type(e).__name__), "msg": str(e)[:150], "feats": sorted(feats), "done": done})
                 break
-            done.append(step)
+            done.append(step + ("@live-handle" if handle is not None else ""))
             stats["maintenance_steps"] = stats.get("maintenance_steps", 0) + 1
+            if refs_expected is not None:
+                stats["live_handle_maintenance"] = stats.get("live_handle_maintenance", 0) + 1
+                refs_now = core.git(["for-each-ref", "--format=%(refname) %(objectname)"], cwd=d).stdout
+                if refs_now != refs_expected:
+                    viol.append({"sig": "C10/seq/%s/maintenance-through-a-long-lived-handle-changed-ref-values" % step, "done": done})
             ftag = "+".join(sorted(f for f in feats if f in ("alternate", "gitlink-entry", "symlink-entry", "detached-head-only-commit", "tag-of-blob",
-                                                              "pack+loose-duplicates", "unreachable-old-pack-young-loose", "ref-directly-below-refs")))[:80]
+                                                              "pack+loose-duplicates", "unreachable-old-pack-young-loose", "ref-directly-below-refs", "live-handle-after-external-ref-move")))[:80]
             r = Repo(d)
             try:
                 bad = 0
@@ -364,6 +398,7 @@ def run_conc(case):
     tmpl = _st[tkey]
     closure = _st[tkey + "-closure"]
     ids = sorted(closure)
+    loose_ids = [i for i in ids if os.path.exists(os.path.join(tmpl, ".git", "objects", i[:2].decode(), i[2:].decode()))]
     base = _st["scratch"].sub("c%d" % rng.randrange(10 ** 9))
     viol, stats = [], {"schedules": 0, "inconclusive_runs": 0, "reader_lookups": 0}
     runno = [0]
@@ -391,8 +426,8 @@ def run_conc(case):
                 r = readers[name]
                 rr = random.Random(seedk)
                 for k in range(case.get("nlook", 6)):
-                    oid = rr.choice(ids)
-                    how = rr.choice(["in", "getitem", "get_raw", "contains", "iter"])
+                    oid = rr.choice(loose_ids if case.get("loose_only") and loose_ids else ids)
+                    how = rr.choice(["in", "getitem", "get_raw", "contains", "iter"] if not case.get("loose_only") else ["getitem", "get_raw", "in"])
                     lookups[0] += 1
                     try:
                         if how == "in":
@@ -434,6 +469,10 @@ def run_conc(case):
                 elif w == "repack+midx":
                     r.object_store.repack()
                     r.object_store.write_midx()
+                elif w == "pack_loose+repack":
+                    # two maintenance steps in a row: a reader's single lookup may be overtaken by both
+                    r.object_store.pack_loose_objects()
+                    r.object_store.repack()
                 elif w == "git-prune-packed":
                     # what C git's prune-packed (run by `git repack -d` / `git gc`) does, call by call, so that the scheduler can
                     # interleave it: unlink every loose object that is also packed, then rmdir the fan-out directory once it is empty
@@ -452,6 +491,23 @@ def run_conc(case):
             finally:
                 r.close()
         actors = {"W": repacker}
+        if case["work"] == "pack_loose||repack":
+            # two maintenance processes (either order is legitimate); as separate actors the reader can be overtaken by both within the
+            # preemption bound
+            def w1():
+                r1 = Repo(root)
+                try:
+                    r1.object_store.pack_loose_objects()
+                finally:
+                    r1.close()
+
+            def w2():
+                r2 = Repo(root)
+                try:
+                    r2.object_store.repack()
+                finally:
+                    r2.close()
+            actors = {"W": w1, "V": w2}
         for i, name in enumerate(readers):
             actors[name] = mk_reader(name, "%s/%d" % (case["seed"], i))
         fsint.install(layer)
@@ -480,8 +536,13 @@ def run_conc(case):
         stats["reader_lookups"] += run.lookups
         gaps += run.iter_gaps
         for name, st in run.actors.items():
+            if st.exc is not None and name in ("W", "V") and case["work"] == "pack_loose||repack":
+                # two maintenance processes tripping over each other (one unlinks what the other was about to read) is not object loss
+                # and not a reader failure: counted; the final-state and reader oracles below still apply
+                stats["concurrent_maintainer_raised_" + type(st.exc).__name__] = stats.get("concurrent_maintainer_raised_" + type(st.exc).__name__, 0) + 1
+                continue
             if st.exc is not None:
-                viol.append({"sig": "C10/conc/%s/%s-raised-%s" % (case["work"], "repacker" if name == "W" else "reader-harness", type(st.exc).__name__),
+                viol.append({"sig": "C10/conc/%s/%s-raised-%s" % (case["work"], "repacker" if name in ("W", "V") else "reader-harness", type(st.exc).__name__),
                              "msg": str(st.exc)[:150], "schedule": run.choices()[:200]})
         # after the run everything must still be there
         fin = Repo(run.root)
@@ -512,13 +573,139 @@ def run_conc(case):
             "nontrivial": ["conc:%s:%d" % (name, i) for i in range(min(n_inter, 60))]}
 
 
+def run_conc_directed(case):
+    """atomic-block adversary: one reader lookup of an object that is loose at the start is overtaken twice by *complete* maintenance
+    steps - pack_loose_objects after the reader's k-th file-system call, repack after its m-th - for every pair k <= m. These are exactly
+    the two-preemption schedules in which the maintainers run to completion, a far smaller space than the DFS explores, and the one in
+    which a lookup has to cope with two generations of packs."""
+    from dulwich.repo import Repo
+    if "scratch" not in _st:
+        _st["scratch"] = core.Scratch("c10-")
+    rng = random.Random(case["seed"])
+    c0 = dict(case, layout="one-pack+loose", kind="conc", readers=0, work="none", max_runs=0)
+    tkey = "ctmpl-one-pack+loose"
+    if tkey not in _st:
+        run_conc(dict(c0, seed="tmpl"))      # builds the template as a side effect
+    tmpl = _st[tkey]
+    closure = _st[tkey + "-closure"]
+    ids = sorted(closure)
+    loose_ids = [i for i in ids if os.path.exists(os.path.join(tmpl, ".git", "objects", i[:2].decode(), i[2:].decode()))]
+    base = _st["scratch"].sub("d%d" % rng.randrange(10 ** 9))
+    viol, stats = [], {"schedules": 0, "inconclusive_runs": 0, "reader_lookups": 0}
+    first, second = case["steps"]
+
+    def maint(root, what):
+        def body():
+            r = Repo(root)
+            try:
+                if what == "pack_loose":
+                    r.object_store.pack_loose_objects()
+                elif what == "repack":
+                    r.object_store.repack()
+                elif what == "gc0":
+                    from dulwich.gc import garbage_collect
+                    garbage_collect(r, grace_period=0)
+            finally:
+                r.close()
+        return body
+    pairs = [(k, m) for k in range(0, 40) for m in range(k, k + 40)]
+    if case.get("sample"):
+        pairs = rng.sample(pairs, case["sample"])
+    runno = 0
+    r_steps_max = 0
+    for oid in rng.sample(loose_ids, min(len(loose_ids), case.get("nids", 2))):
+        for how in case.get("hows", ["get_raw", "getitem", "in"]):
+            done_k = set()
+            for k, m in sorted(pairs):
+                if k > r_steps_max + 2 and r_steps_max:
+                    continue
+                if m > r_steps_max + 2 and r_steps_max and (k, "end") in done_k:
+                    continue
+                runno += 1
+                root = os.path.join(base, "r%d" % runno)
+                shutil.copytree(tmpl, root, symlinks=True)
+                layer = fsint.Layer(root, hot=hot)
+                reader = Repo(root)
+                if case.get("warm"):
+                    list(reader.object_store.packs)
+                miss = []
+
+                def rbody():
+                    try:
+                        if how == "in":
+                            if oid not in reader.object_store:
+                                miss.append("False")
+                        elif how == "getitem":
+                            o = reader.object_store[oid]
+                            if (o.type_name, o.as_raw_string()) != closure[oid]:
+                                miss.append("wrong-bytes")
+                        else:
+                            t, raw = reader.object_store.get_raw(oid)
+                            if raw != closure[oid][1]:
+                                miss.append("wrong-bytes")
+                    except KeyError:
+                        miss.append("KeyError")
+                    except Exception as e:
+                        miss.append(type(e).__name__)
+
+                def policy(run, enabled, current):
+                    R, W, V = run.actors["R"], run.actors["W"], run.actors["V"]
+                    if R.steps < k and "R" in enabled:
+                        return "R"
+                    if "W" in enabled:
+                        return "W"
+                    if R.steps < m and "R" in enabled:
+                        return "R"
+                    if "V" in enabled:
+                        return "V"
+                    return "R" if "R" in enabled else None
+                fsint.install(layer)
+                try:
+                    run = sched.Run(layer, {"R": rbody, "W": maint(root, first), "V": maint(root, second)}, policy=policy, step_cap=30000)
+                    try:
+                        run.execute()
+                    except sched.Inconclusive:
+                        stats["inconclusive_runs"] += 1
+                        continue
+                finally:
+                    fsint.uninstall()
+                    reader.close()
+                stats["schedules"] += 1
+                stats["reader_lookups"] += 1
+                rs = run.actors["R"].steps
+                r_steps_max = max(r_steps_max, rs)
+                if m >= rs:
+                    done_k.add((k, "end"))
+                for name in ("W", "V"):
+                    if run.actors[name].exc is not None:
+                        viol.append({"sig": "C10/conc-directed/%s+%s/maintainer-raised-%s" % (first, second, type(run.actors[name].exc).__name__),
+                                     "k": k, "m": m, "msg": str(run.actors[name].exc)[:120]})
+                for x in miss:
+                    viol.append({"sig": "C10/conc-directed/%s+%s/reader-%s-%s" % (first, second, how, x), "k": k, "m": m, "warm": bool(case.get("warm")),
+                                 "events": [(e["actor"], e["op"], os.path.basename(e["path"] or "")[:18]) for e in layer.log if e.get("hot")][-50:]})
+                shutil.rmtree(root, ignore_errors=True)
+                if len(viol) > 5:
+                    break
+            if len(viol) > 5:
+                break
+    shutil.rmtree(base, ignore_errors=True)
+    seen, out = set(), []
+    for v in viol:
+        if v["sig"] not in seen:
+            seen.add(v["sig"])
+            out.append(v)
+    stats["directed_schedules"] = stats["schedules"]
+    return {"viol": out, "stats": stats, "evaluations": stats["schedules"], "sample": None,
+            "nontrivial": ["directed:%s+%s:%d" % (first, second, i) for i in range(min(stats["schedules"], 200))]}
+
+
 def worker_exit():
     if "scratch" in _st:
         _st["scratch"].cleanup()
 
 
 def run_case(case):
-    return {"seq": run_seq, "conc": run_conc}[case["kind"]](case)
+    return {"seq": run_seq, "conc": run_conc, "conc-directed": run_conc_directed}[case["kind"]](case)
 
 
 def main(ctx):
@@ -530,6 +717,11 @@ def main(ctx):
             for readers, warm in ((1, False), (1, True), (2, True)):
                 cases.append({"kind": "conc", "seed": "%d/c/%s/%s/%d%s" % (ctx.seed, work, layout, readers, warm), "work": work, "layout": layout,
                               "readers": readers, "warm": warm, "max_runs": ctx.budget(120, 1500), "bound": 2, "nlook": 5})
+    for steps in (("pack_loose", "repack"), ("pack_loose", "gc0"), ("repack", "repack")):
+        for warm in (False, True):
+            for how in ("get_raw", "getitem", "in"):
+                cases.append({"kind": "conc-directed", "seed": "%d/cd/%s/%s/%s" % (ctx.seed, "+".join(steps), warm, how), "steps": list(steps), "warm": warm,
+                              "hows": [how], "nids": 1 if not ctx.thorough else 3})
     for readers, warm in ((1, False), (1, True), (2, True)):
         cases.append({"kind": "conc", "seed": "%d/c/prune-packed/%d%s" % (ctx.seed, readers, warm), "work": "git-prune-packed", "layout": "loose+packed-duplicates",
                       "readers": readers, "warm": warm, "max_runs": ctx.budget(200, 2000), "bound": 2, "nlook": 5})
